@@ -360,6 +360,9 @@ inductive Op where
   | mkCand (protoIds : List Nat)
   /-- add a constructed candidate cluster to the record -/
   | addCand (id : Nat)
+  /-- `protocluster.parent = candidate` for protoclusters the candidate lists (the D26 repair of
+      `create_candidates_from_protoclusters` does this when it drops a redundant candidate) -/
+  | reparent (protoIds : List Nat) (candId : Nat)
   /-- `record.add_region(Region(cands, subs))` -/
   | addRegion (candIds subIds : List Nat)
   | clearProtos | clearCands | clearSubs | clearRegions
@@ -373,6 +376,15 @@ def step (s : State) : Op → E State
     let (s, c) ← mkCand s ids
     pure { s with pool := s.pool ++ [c] }
   | .addCand id => addCandidate s id
+  | .reparent pids cid => do
+    match findId (s.cands ++ s.pool) cid with
+    | none => throw "KeyError"
+    | some c =>
+      let ps ← findAll s.protos pids
+      -- only re-pointing at a candidate that lists the protoclusters is modelled
+      if !(pids.all fun k => c.kids.contains k) then throw "KeyError"
+      let parent ← setParents s.parent c ps
+      pure { s with parent := parent }
   | .addRegion cs ss => do
     let cands ← findAll s.cands cs
     let subs ← findAll s.subs ss
